@@ -405,7 +405,7 @@ func cmdDriveNetIndex(args []string) error {
 	// one rule line longer than the 4 KiB read buffer: hundreds of $domain values
 	if len(reqs) > 0 {
 		var ds []string
-		for i := 0; i < 420; i++ {
+		for i := 0; i < 900; i++ {
 			ds = append(ds, fmt.Sprintf("long%03d.example", i))
 		}
 		fh := filterutil.ExtractHostname(reqs[0].FrameURL)
@@ -444,6 +444,12 @@ func cmdDriveNetIndex(args []string) error {
 			reqs = append(reqs, reqJSON{URL: fmt.Sprintf("http://cdn.example/s%d/x.png", i), FrameURL: "http://" + src + "/page", Cpt: []string{"image", "script"}[i%2]})
 		}
 	}
+	// letters that fold to ASCII under a case-insensitive regexp but not under strings.ToLower (LONG S, KELVIN SIGN):
+	// the pattern accepts the URL, the lower-cased URL does not contain the shortcut - index and scan must agree
+	keep = append(keep, "ads-k", "/ask^$domain=fold.example", "||fold.example/ask^")
+	reqs = append(reqs, reqJSON{URL: "http://fold.example/ad\u017f-\u212a/1.png", FrameURL: "", Cpt: "image"},
+		reqJSON{URL: "http://fold.example/a\u017fk", FrameURL: "http://fold.example/", Cpt: "script"},
+		reqJSON{URL: "http://FOLD.example/ASK", FrameURL: "", Cpt: "script"})
 	// rules whose only long literal sits in, or straddles, the fragment of the URL
 	for i, rt := range []string{"*#/ads/banner", "/#!/sponsored^", "||frag%d.example/#/promo-banner", "#section-advert"} {
 		host := fmt.Sprintf("frag%d.example", i)
